@@ -726,7 +726,9 @@ inline void world::queue_central_control( std::uint8_t opcode, const bytes& para
     case 0x16: e.allowed = { len == 3 ? 0x17 : 0x07 }; break;
     case 0x18: if ( len == 5 ) { e.none = true; e.allowed = { 0x07 }; } else e.allowed = { 0x07 }; break;       // invalid PHY values may be called unknown
     case 0x0f: if ( len == 24 ) e.allowed = { 0x10, 0x11, 0x0d, 0x07 }; else e.allowed = { 0x07 }; break;
-    case 0x03: case 0x04: case 0x05: case 0x06: case 0x0a: case 0x0b: e.allowed = { 0x07, 0x0d, 0x11, 0x04, 0x05, 0x06, 0x0b }; e.opcode = 0xff; break;   // encryption procedure: not this harness' business
+    case 0x03: case 0x04: case 0x05: case 0x06: case 0x0a: case 0x0b: e.allowed = { 0x07, 0x0d, 0x11, 0x04, 0x05, 0x06, 0x0b }; e.opcode = 0xff;          // encryption procedure: judged by C28, not here
+               if ( ll_.has_encryption ) e.none = true;     // with link encryption the answers (if any) are consumed by the central's encryption state machine
+               break;
     case 0x09: case 0x10: case 0x13: case 0x17: case 0x14: case 0x15: e.allowed = { 0x07 }; e.opcode = 0xff; break;   // responses to procedures the peripheral may have started: lenient
     default: e.allowed = { 0x07 }; break;
     }
